@@ -21,6 +21,7 @@ type Finding struct {
 	Witness  []Step   `json:"witness,omitempty"`
 	FilterIn []string `json:"filter_in,omitempty"` // other properties whose generators must avoid it too
 	Commit   string   `json:"commit,omitempty"`
+	Commands []string `json:"commands,omitempty"` // the commands a call-site finding is reachable through
 }
 
 type findingsFile struct {
